@@ -6,6 +6,8 @@ import (
 	"crypto/rand"
 	"sync"
 	"sync/atomic"
+
+	"hop.computer/hop/certs"
 )
 
 // This file exists only under the "verif" build tag. It exposes read-only views
@@ -101,3 +103,12 @@ var verifSkew atomic.Int64
 func VerifSetClientClockSkew(seconds int64) { verifSkew.Store(seconds) }
 
 func verifClientClockSkew() int64 { return verifSkew.Load() }
+
+// VerifNewHandle builds a detached Handle that reports leaf as the client's
+// certificate, for harnesses that drive a server session without a network.
+func VerifNewHandle(leaf *certs.Certificate) *Handle {
+	ss := &SessionState{}
+	h := newHandleForSession(nil, ss, leaf, 4)
+	ss.handle = h
+	return h
+}
